@@ -28,6 +28,7 @@ import (
 //	R-pending-pair  (shared with C05) pending entries are removed on every path from registration to exit
 //	R-queue-answered  (shared with C03) on queue-answering transports every path after the dispatch enqueues a frame
 //	R-pending-key   (shared with C05) pending keys come from a counter living in the object that holds the table
+//	R-no-transport-replay (shared with C17) no request is marked replayable for net/http
 //	R-id-presence   (shared with C15) servers classify a message by the presence of its id, never by its value
 func init() { Registry["C01"] = checkC01 }
 
@@ -235,6 +236,7 @@ func checkC01(c *Ctx) {
 	scannersBounded(c, c.P.LibFns, "R-bounded-scanner")
 	c03QueueAnswered(c)
 	c15IDPresence(c) // a request whose id is taken for absent is never answered
+	c17NoTransportReplay(c) // a request net/http may replay on its own reaches the handler twice
 	c05Pending(c)
 	c05PendingKey(c)
 	// the call's outcome is the server's answer, not what a notification handler returned (shared with C10)
